@@ -74,7 +74,19 @@ func (c *Ctx) WithSummariesFrom(base Subst, pred AtomPred) func(b *ssa.BasicBloc
 			for _, side := range [][2]ssa.Value{{a.LV, a.RV}, {a.RV, a.LV}} {
 				call, ok := s.Res(side[0]).(*ssa.Call)
 				k, ok2 := side[1].(*ssa.Const)
-				if !ok || !ok2 || k.Value == nil || k.Value.Kind() != constant.Int {
+				if !ok || !ok2 || k.Value == nil {
+					continue
+				}
+				if k.Value.Kind() == constant.String {
+					// [helper(...) == "<const>"] for a string-valued helper: every return of exactly that constant is cut
+					if c.stringHelperCut(call, constant.StringVal(k.Value), s, func(ns Subst) func(b *ssa.BasicBlock, i int, e *an.Atom) bool {
+						return func(b *ssa.BasicBlock, i int, e *an.Atom) bool { return judge(e, ns, depth+1) }
+					}) {
+						return true
+					}
+					continue
+				}
+				if k.Value.Kind() != constant.Int {
 					continue
 				}
 				kv, exact := constant.Int64Val(k.Value)
@@ -230,4 +242,55 @@ func HelperResults(v ssa.Value) (out []ResVal, ok bool) {
 		out = append(out, ResVal{Val: r, Sub: sub, Ret: ret})
 	}
 	return out, true
+}
+
+// stringHelperCut: every return of the string helper called by `call` that can yield the constant k is a constant return
+// of k that is cut (in the helper) by accepting edges; any non-constant return makes the answer false.
+func (c *Ctx) stringHelperCut(call *ssa.Call, k string, s Subst, acceptFor func(Subst) func(b *ssa.BasicBlock, i int, e *an.Atom) bool) bool {
+	f := call.Call.StaticCallee()
+	if f == nil || !prog.InModule(f) || f.Blocks == nil || f.Signature.Results().Len() != 1 || call.Call.IsInvoke() {
+		return false
+	}
+	ns := Subst{}
+	for kk, v := range s {
+		ns[kk] = v
+	}
+	for i, p := range f.Params {
+		if i < len(call.Call.Args) {
+			ns[p] = s.Res(call.Call.Args[i])
+		}
+	}
+	accept := acceptFor(ns)
+	any := false
+	for _, ret := range an.Returns(f) {
+		v := an.Result(ret, 0)
+		type cand struct {
+			v    ssa.Value
+			site ssa.Instruction
+		}
+		var cands []cand
+		if phi, ok := v.(*ssa.Phi); ok {
+			for j, e := range phi.Edges {
+				pred := phi.Block().Preds[j]
+				cands = append(cands, cand{e, pred.Instrs[len(pred.Instrs)-1]})
+			}
+		} else {
+			cands = append(cands, cand{v, ret})
+		}
+		for _, cd := range cands {
+			kc, ok := cd.v.(*ssa.Const)
+			if !ok || kc.Value == nil || kc.Value.Kind() != constant.String {
+				return false
+			}
+			if constant.StringVal(kc.Value) != k {
+				continue
+			}
+			any = true
+			site := cd.site
+			if x, _ := an.Cut(an.CutQuery{From: an.Entry(f), Target: func(i ssa.Instruction) bool { return i == site }, AcceptEdge: accept}); x != nil {
+				return false
+			}
+		}
+	}
+	return any
 }
